@@ -82,7 +82,11 @@ RULE = ("objects of the 18 model classes generated from the attrs schemas: full 
         "in 10 (names, messages, fullnames, urls, origins, visit types, formats, extid types, offset bytes, header keys "
         "and values, branch names, alias targets, entry names, metadata keys and values - object and dictionary routes, "
         "nested objects too) carries a string / bytes literal harvested with ast from swh/model/*.py of the tree UNDER "
-        "TEST (gitobj_common.source_tokens) as prefix / suffix / infix / whole; the Release id oracle handed to the model "
+        "TEST (gitobj_common.source_tokens, including values that look like other domain objects: complete SWHID strings of "
+        "every kind, 40 / 64-hex strings, ISO dates, numbers, 'None', URLs) as prefix / suffix / infix / whole; a "
+        "deterministic sweep puts every token as prefix AND as the whole value of the text fields of the object route and "
+        "of the legacy routes (old-schema metadata with type origin - expectation always swh:1:ori:sha1(url), computed "
+        "by the harness - or another type; person dictionaries without fullname; recorded offset bytes); the Release id oracle handed to the model "
         "is an independent tag-object writer (not /repo's compute_hash); sequences whose Unicode normal forms differ "
         "(gitobj_common.NFC_UNSTABLE: decomposed accents, ANGSTROM SIGN, CJK compatibility ideographs, Hangul jamo, "
         "ligatures, Greek question mark) in about 3 % of the free-form values and, deterministically, each sequence "
@@ -825,14 +829,17 @@ def token_sweep_cases(g, quick):
         except Exception:
             pass
 
-    forms = [lambda t, x: t + x] if quick else [lambda t, x: t + x, lambda t, x: x + t, lambda t, x: t]
-    for form in forms:
+    forms = [lambda t, x: t + x, lambda t, x: t] + ([] if quick else [lambda t, x: x + t])
+    for fi, form in enumerate(forms):
+        lean = quick and fi > 0          # quick tier: the non-prefix forms only on the values identifiers are derived from
         for t in bt:
             v = form(t, b"x")
             emit(SObj("Release", [("name", v), ("message", form(t, b"m")), ("target", g.sha()),
                                   ("target_type", SEnum("B", "revision")), ("synthetic", False),
                                   ("author", SObj("Person", [("fullname", form(t, b"A <a>")), ("name", v), ("email", None)])),
                                   ("date", None)] + id_field(g, r.choice(["absent", "right"]))))
+            if lean:
+                continue
             emit(SObj("Directory", [("entries", (SObj("DirectoryEntry", [("name", v.replace(b"/", b"_")), ("type", "file"),
                                                                            ("target", g.sha()), ("perms", 0o100644)]),))]))
             emit(SObj("Snapshot", [("branches", SDict([(v, SObj("SnapshotBranch", [("target", form(t, b"HEAD")),
@@ -841,11 +848,14 @@ def token_sweep_cases(g, quick):
         for t in st:
             v = form(t, "x")
             emit(SObj("Origin", [("url", v)]))
-            emit(SObj("OriginVisit", [("origin", v), ("date", g.date()), ("type", form(t, "git"))]))
+            if not lean:
+                emit(SObj("OriginVisit", [("origin", v), ("date", g.date()), ("type", form(t, "git"))]))
             spec = _gen_rem_raw(g, "dir", set(), "absent")
             emit(SObj(spec.cls, [(n, (form(t, "json") if n == "format" else x)) for n, x in spec.fields if n != "origin"]
                       + [("origin", v)]))
-            emit(SObj("ExtID", [("extid_type", v), ("extid", form(t.encode("utf-8", "replace"), b"e")), ("target", g.core())]))
+            if not lean:
+                emit(SObj("ExtID", [("extid_type", v), ("extid", form(t.encode("utf-8", "replace"), b"e")),
+                                    ("target", g.core())]))
     return out
 
 
@@ -931,6 +941,59 @@ def nfc_sweep_cases(g, quick):
                         out.append(c)
                     except Exception:
                         pass
+    return out
+
+
+def ori_swhid(url):
+    """the SWHID of the origin designated by its URL, written independently: swh:1:ori:<sha1 of the UTF-8 URL>"""
+    import hashlib
+    return "swh:1:ori:" + hashlib.sha1(url.encode("utf-8")).hexdigest()
+
+
+def legacy_token_cases(g, quick):
+    """every harvested literal and every "looks like another domain object" value (complete SWHID strings of every kind,
+    40 / 64-hex strings, ISO dates, numbers, 'None', URLs) as the WHOLE value of the text fields of the LEGACY routes:
+    old-schema metadata (type origin: the target is ALWAYS an origin URL, whatever it looks like -> swh:1:ori:sha1(url);
+    another type: the key is dropped, the target is read as it is), person dictionaries without fullname, date
+    dictionaries whose recorded offset bytes are the token"""
+    try:
+        from .gitobj_common import source_tokens
+        bt, st = source_tokens("bytes"), source_tokens("str")
+        base = abstract(realize(_gen_rem_raw(g, "ori", set(), "absent")).to_dict())
+    except Exception:
+        return []
+    r = g.r
+    out = []
+    items = [(k, v) for k, v in base.items if k != "id"]
+
+    def emit(cls, legacy, leg, cur):
+        try:
+            c = {"cls": cls, "kind": "dict", "legacy": legacy, "route": "token", "w": enc(leg)}
+            if cur is not None:
+                c["w2"] = enc(cur)
+            out.append(c)
+        except Exception:
+            pass
+
+    for t in st:
+        rest = [(k, v) for k, v in items if k != "target"]
+        try:
+            cur = SDict(rest + [("target", ori_swhid(t))])
+        except Exception:
+            cur = None                                       # a URL that does not encode: whatever /repo does, the model says
+        leg = rest + [("type", "origin"), ("target", t)]
+        r.shuffle(leg)
+        emit("RawExtrinsicMetadata", "target", SDict(leg), cur)
+        leg = rest + [("target", t), ("type", r.choice(["content", "revision", "snapshot", "directory", "release", t if t != "origin" else "x"]))]
+        emit("RawExtrinsicMetadata", "target", SDict(leg), SDict(rest + [("target", t)]))
+    for t in bt:
+        nm, em = r.choice([(t, t), (t, None), (None, t), (t, b"e@x"), (b"N", t)])
+        leg, cur = person_form(g, ABSENT, nm, em)
+        emit("Person", "person", leg, cur)
+        ts = SDict([("seconds", 1), ("microseconds", 0)])
+        leg = [("timestamp", ts), ("offset_bytes", t)] + r.choice([[], [("offset", 120)], [("offset", 0), ("negative_utc", True)]])
+        r.shuffle(leg)
+        emit("TimestampWithTimezone", "date", SDict(leg), SDict([("timestamp", ts), ("offset_bytes", t)]))
     return out
 
 
@@ -1064,11 +1127,10 @@ def legacy_cases(g, n):
         d = o.to_dict()
         leg = dict(d)
         if r.random() < 0.6:
-            url = g.url()
-            from swh.model.model import Origin
+            url = _tok(g, g.url())
             leg["type"], leg["target"] = "origin", url
             cur = dict(d)
-            cur["target"] = str(Origin(url=url).swhid())
+            cur["target"] = ori_swhid(url)          # always the origin's SWHID: sha1 of the URL, written independently
             # the id of the dictionary belongs to another target: keep it as an explicit (wrong) id or drop it
             if r.random() < 0.5:
                 leg.pop("id"), cur.pop("id")
@@ -1725,6 +1787,7 @@ def gen(rng, tier):
     cases += _guard(mixed_dict_cases, g, quick)
     cases += _guard(boundary_cases, g)
     cases += _guard(token_sweep_cases, g, quick)
+    cases += _guard(legacy_token_cases, g, quick)
     cases += _guard(nfc_sweep_cases, g, quick)
     rng.shuffle(specs)
     cases += _guard(dict_variants, g, specs[: (600 if quick else 20000)])
